@@ -157,6 +157,46 @@ func c19Ops() []*c19Op {
 		w.Flush()
 	}).Heavy = true
 
+	// ------------------------------------------------------------ writers and statistics on DERIVED alignments
+	// (rows of a transposed / cloned / extracted alignment may be laid out otherwise than rows that were added one
+	// by one: adjacent in one block, without spare capacity): the derived object is unchanged by every writer,
+	// by String() and by the column statistics
+	q("derived+writers", true, c19HasCell, func(*c19Inst, c19Level) []string { return []string{"0", "1", "2", "3"} }, func(e *c19Env, arg string) {
+		var d align.Alignment
+		var err error
+		switch arg {
+		case "0":
+			d, err = e.al.Transpose()
+		case "1":
+			d, err = e.al.Clone()
+		case "2":
+			d, err = e.al.SubAlign(0, e.al.Length())
+		case "3":
+			all := make([]int, e.al.Length())
+			for i := range all {
+				all[i] = i
+			}
+			d, err = e.al.SelectSites(all)
+		}
+		if err != nil || d == nil || align.VerifDump(d) == nil {
+			e.failed = true
+			return
+		}
+		e.addAux([]string{"transposed", "cloned", "sub-", "site-selected"}[c19Ints(arg)[0]]+" alignment", d)
+		_ = fasta.WriteAlignment(d)
+		_ = fasta.WriteSequences(d)
+		_ = phylip.WriteAlignment(d, false, false, false)
+		_ = phylip.WriteAlignment(d, true, true, true)
+		_ = nexus.WriteAlignment(d)
+		_ = clustal.WriteAlignment(d)
+		_ = stockholm.WriteAlignment(d)
+		_ = paml.WriteAlignment(d)
+		_ = d.String()
+		d.MaxCharStats(false, false)
+		d.Consensus(false, false)
+		d.CharStats()
+	})
+
 	// ------------------------------------------------------------ accessors
 	q("get/by-index", false, nil, nil, func(e *c19Env, _ string) {
 		n := e.in.NbSequences()
